@@ -176,7 +176,93 @@ pub mod ds {
     pub open spec fn applies_to(g: Graph, fs: Seq<FileId>, r: Option<BuildId>) -> bool {
         match r {
             Some(b) => fs.len() > 0 && same_producer(g, fs, fs.len() as int, b),
-            None => fs.len() == 0 || forall|b: BuildId| !same_producer(g, fs, fs.len() as int, b),
+            None => fs.len() == 0 || forall|b: BuildId| !#[trigger] same_producer(g, fs, fs.len() as int, b),
+        }
+    }
+
+    // --- effect of loading records on the graph
+    pub open spec fn gext(g0: Graph, g1: Graph) -> bool {
+        g1.builds == g0.builds && gs::files_ext(gs::files(g0), gs::files(g1)) && gs::files(g1).len() < 0x1_0000_0000
+    }
+    pub proof fn lemma_gext_wf(g0: Graph, g1: Graph)
+        requires gs::wf_graph(g0), gext(g0, g1)
+        ensures gs::wf_graph(g1)
+    {
+        assert forall|b: int| 0 <= b < gs::builds(g1).len() implies gs::wf_build(#[trigger] gs::builds(g1)[b]) && gs::build_ids_ok(g1, gs::builds(g1)[b]) && gs::no_dup(gs::builds(g1)[b].outs.ids@) by {
+            assert(gs::build_ids_ok(g0, gs::builds(g0)[b]));
+        }
+        assert forall|b: int, j: int| 0 <= b < gs::builds(g1).len() && 0 <= j < gs::builds(g1)[b].outs.ids@.len() implies
+            gs::files(g1)[ix(#[trigger] gs::builds(g1)[b].outs.ids@[j])].input == Some(BuildId(b as u32)) by {
+            assert(gs::build_ids_ok(g0, gs::builds(g0)[b]));
+            assert(gs::fid_ok(g0, gs::builds(g0)[b].outs.ids@[j]));
+            let _ = gs::files(g1)[ix(gs::builds(g1)[b].outs.ids@[j])];
+        }
+        assert forall|f: int| 0 <= f < gs::files(g1).len() implies match (#[trigger] gs::files(g1)[f]).input {
+                Some(p) => ix(p) < gs::builds(g1).len() && gs::builds(g1)[ix(p)].outs.ids@.contains(FileId(f as u32)), None => true } by {
+            if f < gs::files(g0).len() { assert(gs::files(g1)[f] == gs::files(g0)[f]); }
+        }
+        assert forall|f: int, k: int| 0 <= f < gs::files(g1).len() && 0 <= k < gs::files(g1)[f].dependents@.len() implies ix(#[trigger] gs::files(g1)[f].dependents@[k]) < gs::builds(g1).len() by {
+            if f < gs::files(g0).len() { assert(gs::files(g1)[f] == gs::files(g0)[f]); }
+        }
+    }
+    /// effect of a complete build record
+    pub open spec fn build_applied(g0: Graph, h0: Hashes, g1: Graph, h1: Hashes, target: Option<BuildId>, deps: Seq<FileId>, hash: u64) -> bool {
+        match target {
+            None => g1 == g0 && h1.0@ == h0.0@,
+            Some(b) => ix(b) < gs::builds(g0).len() && g1.files == g0.files && gs::builds(g1).len() == gs::builds(g0).len()
+                && (forall|i: int| 0 <= i < gs::builds(g0).len() && i != ix(b) ==> #[trigger] gs::builds(g1)[i] == gs::builds(g0)[i])
+                && gs::builds(g1)[ix(b)].discovered_ins@ == deps && gs::same_except_discovered(gs::builds(g1)[ix(b)], gs::builds(g0)[ix(b)])
+                && h1.0@ == h0.0@.insert(b, crate::hash::BuildHash(hash)),
+        }
+    }
+
+    pub open spec fn ids_in_range(s: Seq<u8>, cnt: int, n: int) -> bool {
+        forall|j: int| 0 <= j < cnt && 3 * j + 3 <= s.len() ==> (#[trigger] id_at(s, j)) < n
+    }
+    pub open spec fn skip(s: Seq<u8>, n: int) -> Seq<u8> { s.subrange(n, s.len() as int) }
+    /// the files named by the first cnt ids of s
+    pub open spec fn files_of(m: IdMap, s: Seq<u8>, cnt: int) -> Seq<FileId> { Seq::new(cnt as nat, |j: int| fileids(m)[id_at(s, j) as int]) }
+    /// every db id maps to a file of the graph
+    pub open spec fn ids_files_ok(m: IdMap, g: Graph) -> bool { forall|i: int| 0 <= i < fileids(m).len() ==> gs::fid_ok(g, #[trigger] fileids(m)[i]) }
+    pub open spec fn target_of(g: Graph, fs: Seq<FileId>) -> Option<BuildId> {
+        if fs.len() == 0 { None } else if !gs::fid_ok(g, fs[0]) { None } else {
+            match gs::files(g)[ix(fs[0])].input {
+                Some(b) => if same_producer(g, fs, fs.len() as int, b) { Some(b) } else { None },
+                None => None,
+            }
+        }
+    }
+    pub proof fn lemma_target_unique(g: Graph, fs: Seq<FileId>, r: Option<BuildId>)
+        requires applies_to(g, fs, r)
+        ensures r == target_of(g, fs)
+    {
+        match r {
+            Some(b) => { assert(gs::fid_ok(g, fs[0]) && gs::files(g)[ix(fs[0])].input == Some(b)); }
+            None => {
+                if fs.len() > 0 && gs::fid_ok(g, fs[0]) {
+                    match gs::files(g)[ix(fs[0])].input { Some(b) => { assert(!same_producer(g, fs, fs.len() as int, b)); } None => {} }
+                }
+            }
+        }
+    }
+    pub proof fn lemma_id_at_skip(s: Seq<u8>, k: int)
+        requires 0 <= k, 3 * k + 3 <= s.len()
+        ensures id_at(s, k) == dec_u24(skip(s, 3 * k).subrange(0, 3))
+    {
+        assert(skip(s, 3 * k).subrange(0, 3) =~= s.subrange(3 * k, 3 * k + 3));
+    }
+    pub proof fn lemma_skip_skip(s: Seq<u8>, a: int, b: int)
+        requires 0 <= a, 0 <= b, a + b <= s.len()
+        ensures skip(skip(s, a), b) =~= skip(s, a + b)
+    {}
+    /// the stream requirements of a build record's body (after its leading u16)
+    pub open spec fn build_body_ok(s: Seq<u8>, no: int, n: int) -> bool {
+        ids_in_range(s, no, n) && (s.len() >= 3 * no + 2 ==> ids_in_range(skip(s, 3 * no + 2), dec_u16(s.subrange(3 * no, 3 * no + 2)) as int, n))
+    }
+    pub open spec fn build_body_len(s: Seq<u8>, no: int) -> int {
+        if s.len() < 3 * no + 2 { -1 } else {
+            let t = 3 * no + 2 + 3 * (dec_u16(s.subrange(3 * no, 3 * no + 2)) as int) + 8;
+            if s.len() >= t { t } else { -1 }
         }
     }
     }
